@@ -117,6 +117,11 @@ func (c cfg) spec() *hlib.RunSpec {
 				vtime.Sleep(150 * time.Millisecond) // longer than the stop guard, shorter than the completion timeout
 			case "forever":
 				vrt.WaitUntil("body-blocks-for-ever", func() bool { return false })
+			case "first-forever": // iteration 1 never finishes, the others take 30 ms
+				if id == "1" {
+					vrt.WaitUntil("body-blocks-for-ever", func() bool { return false })
+				}
+				vtime.Sleep(30 * time.Millisecond)
 			}
 			vrt.LogQuiet("end " + t.Iteration)
 		}
@@ -377,6 +382,9 @@ func scenariosFor(tier string) []vrt.Scenario {
 	// config-file mode, the limit reached at the very start of the first stage
 	add(b-1, cfg{mode: "file", maxDur: ms(2000), limit: 1, cancelAt: never, body: "instant"})
 	add(b-1, cfg{mode: "file-users-first", maxDur: ms(2000), limit: 2, cancelAt: never, body: "sleep30", conc: 2})
+	// the limit is reached while iterations that never finish are in flight: the completion timeout still bounds the wait
+	add(b-1, cfg{mode: "constant", maxDur: ms(2000), limit: 3, cancelAt: never, body: "first-forever", conc: 2})
+	add(b-1, cfg{mode: "users", maxDur: ms(2000), limit: 3, cancelAt: never, body: "first-forever", conc: 2})
 	// the triggering window is over before it begins
 	add(b, cfg{mode: "constant", maxDur: ms(10), cancelAt: never, body: "sleep30", conc: 2})
 	add(b, cfg{mode: "constant", maxDur: ms(5), cancelAt: never, body: "instant"})
